@@ -8,7 +8,18 @@ workers (NewBaseJobWorker / NewErrCallbackJobWorker call by call with Done, Wait
 NewJob, Close and parent cancellation; RunJobWorker / RunErrCallbackJobWorker; BatchWork) with
 seeded job counts, worker sizes, failing jobs and cancellations; JobWorkerTrace.tla validates the
 event log, searching the unlogged steps (cancel call of a failing job, acceptance point of a
-NewJob call, effect of a cancellation)."""
+NewJob call, effect of a cancellation).
+
+The end of a job goroutine is modelled as separate steps (callback returns / cancel with the error /
+release the slot) in the order the constant EndOrder names: TLC shows that cancel-release keeps
+"Wait's nil => no accepted job failed" and "nothing is accepted after a failed job gave its slot
+back", and that release-cancel does not (JobWorker_order_rc_*.cfg, expected counterexamples). The
+windows of those counterexamples - a Wait / NewJob / the driver of RunJobWorker and BatchWork
+stepping between two tail steps of a failing job that is the last holder of a slot - are what the
+harness aims at on the real code (harness/internal/c33/window.go: handshake + balanced delay +
+swept offsets + contention on the context's mutex); the aimed histories are judged by the same
+trace specification."""
+import json
 import os
 import re
 from vlib import core
@@ -29,9 +40,11 @@ def split(events):
 
 
 def tlc_traces(ctx, hs):
+    """validates the traces in one TLC run; returns (indices of unexplained traces, {index: first unexplained event})"""
     path = os.path.join(ctx.work, "part.ndjson")
-    rows = []
+    rows, line = [], {}
     for (r, evs) in hs:
+        line[r["i"]] = len(rows) + 1            # 1-based line of the trace's Reset
         rows.append(r)
         rows.extend(evs)
     rows.append({"a": "Eof"})
@@ -42,7 +55,14 @@ def tlc_traces(ctx, hs):
     m = re.findall(r'<<\s*"NOTOK",\s*\{([^}]*)\}\s*>>', res.out)
     if not m:
         raise core.MachineryError("JobWorkerTrace printed no NOTOK line: %s" % res.out[-1500:])
-    return set(int(x) for x in re.sub(r"\s", "", m[-1]).split(",") if x), hw
+    notok = set(int(x) for x in re.sub(r"\s", "", m[-1]).split(",") if x)
+    first = {}
+    for (i, h) in re.findall(r'<<\s*"HWT",\s*(\d+),\s*(\d+)\s*>>', res.out):
+        first[int(i)] = int(h) - line[int(i)] - 1   # index into the trace's events
+    for i in notok:
+        if i not in first:
+            raise core.MachineryError("JobWorkerTrace printed no HWT line for trace %d: %s" % (i, res.out[-1500:]))
+    return notok, first
 
 
 def errclass(e):
@@ -50,12 +70,19 @@ def errclass(e):
         e, "job-error" if 0 < e < 100 else "other-error")
 
 
-def classify(r, evs, ev):
+def classify(r, evs, k):
+    """key of the class of an unexplained trace; k = index of its first unexplained event"""
+    ev = evs[k] if 0 <= k < len(evs) else {}
     a = ev.get("a", "?")
     kind = "batch" if r["kind"] == "batch" else ("run" if r["kind"].startswith("run") else "worker")
+    before = evs[:max(k, 0)]
+    errcb = r["kind"] in ("errcb", "runerrcb")
+    failed = (not errcb) and any(x["a"] == "End" and x["e"] != 0 for x in before)
     if a in ("RunRet", "WaitRet"):
         e = ev["e"]
         if e == 0:
+            if failed:
+                return "%s:%s-nil-after-an-accepted-job-failed" % (kind, a)
             return "%s:%s-nil-though-a-job-had-not-ended-or-failed" % (kind, a)
         if e == 101:
             return "%s:%s-context-canceled-instead-of-first-error" % (kind, a)
@@ -64,10 +91,16 @@ def classify(r, evs, ev):
         n = sum(1 for x in evs if x["a"] == "Start" and x["j"] == ev["j"])
         if n > 1:
             return "%s:job-started-twice" % kind
+        if failed and kind != "worker":
+            return "%s:job-started-after-a-job-of-an-earlier-batch-failed" % kind
         return "%s:job-start-not-explained(batch-order,last,cancel-state)" % kind
     if a == "NewJobRet":
+        if ev.get("ok") and failed and not any(x["a"] == "Done" for x in before):
+            return "worker:NewJob-accepted-after-a-job-failed-and-freed-its-slot"
         return "worker:NewJob-%s" % ("accepted-after-done-or-cancel" if ev.get("ok") else "refused-while-open")
     if a == "Pref":
+        if failed:
+            return "batch:next-batch-prepared-after-a-job-failed"
         return "batch:pref-before-previous-batch-ended-or-wrong-last"
     return "%s:unexplained-%s" % (kind, a)
 
@@ -81,62 +114,85 @@ def run(ctx):
     quick = ctx.tier == "quick"
     ctx.tlc("JobWorker", "JobWorker_mc_quick.cfg" if quick else "JobWorker_mc_thorough.cfg", workers=4)
     ctx.tlc("JobWorker", "JobWorker_mc_errcb.cfg", workers=4)
+    # the pinned NewJob (interrupted acquire answers ctx.Err(); repaired in /repo): expected counterexample
     cand = ctx.tlc("JobWorker", "JobWorker_cand.cfg", workers=1, allow_violation=True, count=False)
+    # the other order of a job goroutine's end (release the slot, then cancel): expected counterexamples,
+    # the windows the harness aims at
+    orders = {"cancel-release": "keeps WaitNilNoFailure, SlotFreeOnlyAfterCancel, NoAcceptAfterFailure (JobWorker_mc_*.cfg)"}
+    for (cfg, inv) in (("JobWorker_order_rc_wait.cfg", "WaitNilNoFailure"), ("JobWorker_order_rc_accept.cfg", "NoAcceptAfterFailure")):
+        o = ctx.tlc("JobWorker", cfg, workers=1, allow_violation=True, count=False)
+        if not o.safety_violation or o.violated != inv:
+            raise core.MachineryError("%s: the order release-cancel is expected to violate %s (got %s): the "
+                                      "specification no longer tells the orders apart" % (cfg, inv, o.violated))
+        orders["release-cancel;" + inv] = "violated (model only; aimed at on the real code)"
+    ctx.extra["end_orders"] = orders
 
     trace = os.path.join(ctx.work, "jobs.ndjson")
+    stats = os.path.join(ctx.work, "aimed.json")
     num = 450 if quick else 4500
-    ctx.vh(["C33", "record", "--num", num, "--trace", trace], timeout=3000)
+    aimed = ["--aimed-ms", 9000, "--aimed-min", 300, "--aimed-max", 40000] if quick else \
+            ["--aimed-ms", 90000, "--aimed-min", 3000, "--aimed-max", 400000]
+    ctx.vh(["C33", "record", "--num", num, "--trace", trace, "--stats", stats] + aimed, timeout=3000)
     hs = split(core.read_ndjson(trace))
-    if len(hs) < num:
-        raise core.MachineryError("harness recorded %d of %d traces" % (len(hs), num))
+    nrand = sum(1 for (r, _) in hs if not r.get("aimed"))
+    if nrand < num:
+        raise core.MachineryError("harness recorded %d of %d traces" % (nrand, num))
+    st = json.load(open(stats))
     byi = {r["i"]: (r, evs) for (r, evs) in hs}
     ctx.rule = ("executions of the real workers: NewBaseJobWorker/NewErrCallbackJobWorker driven call by call (0..60 jobs, size 1..16, "
                 "failing jobs, Done, Wait/LazyWait, late NewJob, Close, parent cancellation), RunJobWorker/RunErrCallbackJobWorker "
-                "(1..40 x 1..16), BatchWork (size 1..40 x limit 1..40, failing jobs / pref), plus the schedule of TLC's candidate; "
-                "non-trivial = at least one job ran; distinct by event sequence")
+                "(1..40 x 1..16), BatchWork (size 1..40 x limit 1..40, failing jobs / pref), the schedule of TLC's candidate, and aimed "
+                "histories (Wait / LazyWait / NewJob / RunJobWorker / BatchWork stepping into the end of a failing job that is the last "
+                "holder of a slot; worker size 1..3); non-trivial = at least one job ran; distinct by event sequence")
     kinds = {}
     for (r, evs) in hs:
-        kinds[r["kind"]] = kinds.get(r["kind"], 0) + 1
+        kd = "aimed:" + r["aimed"] if r.get("aimed") else r["kind"]
+        kinds[kd] = kinds.get(kd, 0) + 1
         ctx.case([r["kind"], r["size"], r["limit"], [[e.get("a"), e.get("j"), e.get("e"), e.get("ok"), e.get("cc"), e.get("last"), e.get("c")] for e in evs]],
                  nontrivial=any(e["a"] == "Start" for e in evs),
                  sample={"kind": r["kind"], "size": r["size"], "limit": r["limit"], "events": evs[:20]})
     ctx.traces += len(hs)
     ctx.extra["traces_by_kind"] = kinds
     ctx.extra["jobs_run"] = sum(1 for (_, evs) in hs for e in evs if e["a"] == "Start")
+    # aimed histories: every shot was run on the real code; shots with the same event sequence are validated once
+    ctx.extra["aimed"] = st
+    shots = sum(v for (k, v) in st["counts"].items() if k.startswith("shots:"))
+    if shots < (300 if quick else 3000):
+        raise core.MachineryError("only %d aimed histories were run" % shots)
 
-    notok = set()
+    notok, first = set(), {}
     CH = 1500
     for k in range(0, len(hs), CH):
-        n, _ = tlc_traces(ctx, hs[k:k + CH])
+        n, f = tlc_traces(ctx, hs[k:k + CH])
         notok |= n
+        first.update(f)
     ctx.extra["traces_not_explained"] = len(notok)
-    seen_keys = {}
     forced_seen = False
     for i in sorted(notok):
         r, evs = byi[i]
-        # cheap pre-classification to bound the single-trace TLC runs: 3 per (kind, last event kind)
-        pre = (r["kind"], r.get("forced", ""))
-        if seen_keys.get(pre, 0) >= 3:
-            ctx.extra["traces_not_diagnosed"] = ctx.extra.get("traces_not_diagnosed", 0) + 1
-            continue
-        seen_keys[pre] = seen_keys.get(pre, 0) + 1
-        _, hw = tlc_traces(ctx, [byi[i]])
-        ev = evs[hw - 2] if hw and 2 <= hw <= len(evs) + 1 else {}
-        key = classify(r, evs, ev)
+        k = first[i]
+        ev = evs[k] if 0 <= k < len(evs) else {}
+        key = classify(r, evs, k)
         if r.get("forced"):
             forced_seen = True
+        how = " (forced %s)" % r["forced"] if r.get("forced") else (" (aimed %s)" % r["aimed"] if r.get("aimed") else "")
         ctx.violation(key, "%s size=%s limit=%s%s: first event no behaviour of JobWorker.tla explains: %s after %s" % (
-            r["kind"], r["size"], r["limit"], " (forced %s)" % r["forced"] if r.get("forced") else "", ev, brief(evs, hw - 2)[-8:]),
-            {"reset": r, "unexplained_line": hw, "events": evs})
+            r["kind"], r["size"], r["limit"], how, ev, brief(evs, k)[-8:]),
+            {"reset": r, "unexplained_event": k, "events": evs})
     mo = []
     if cand.safety_violation and not forced_seen:
-        mo.append({"invariant": cand.violated, "schedule": "worker size 1, job 1 fails while the driver is inside NewJob(2)"})
+        mo.append({"invariant": cand.violated, "cfg": "JobWorker_cand.cfg (AcquireAnswer = ctxerr: the pinned NewJob, repaired in /repo)",
+                   "schedule": "worker size 1, job 1 fails while the driver is inside NewJob(2); not reproduced on this tree"})
     ctx.extra["model_only_counterexamples"] = mo
     ctx.assumptions = [
         "Wait returning an error does not have to wait for running jobs (the code returns as soon as the context is cancelled); "
-        "Wait returning nil requires every accepted job to have ended",
+        "Wait returning nil requires every accepted job to have ended without error (base worker)",
         "the error a refused NewJob call returns is not constrained for a worker driven call by call; for RunJobWorker/BatchWork the "
         "returned error must be the first job error or the parent's cause",
         "which of two failing jobs cancels first is not observable: either error is accepted unless the logged cancellation "
         "states of the jobs' contexts exclude it",
+        "a failing job counts as failed from the End event its callback logs before it returns; a NewJob call is explained as accepted "
+        "only if a slot is free while the worker is open, a failed job keeping its slot until its error is in the context",
+        "the aimed histories make the windows at the end of a job goroutine likely (no gate in util/worker.go: "
+        "fixes/HOOK-C33-worker-gates.diff proposes one); a change that opens such a window is found with high probability, not with certainty",
     ]
